@@ -32,6 +32,7 @@ type cfgT struct {
 	LitMinus bool `json:"litminus"`
 	LitPlus  bool `json:"litplus"`
 	Rev2     bool `json:"rev2"`
+	UTF8Adv  bool `json:"utf8adv"`
 	UTF8     bool `json:"utf8"`
 }
 
@@ -310,7 +311,7 @@ func runCase(cs *caseT) ([]map[string]interface{}, error) {
 	} else if cs.Cfg.LitMinus && !cs.Cfg.Rev2 {
 		caps += " LITERAL-"
 	}
-	if cs.Cfg.UTF8 {
+	if cs.Cfg.UTF8Adv {
 		caps += " UTF8=ACCEPT ENABLE"
 	}
 	sc.Write([]byte("* OK [CAPABILITY " + caps + "] ready\r\n"))
@@ -471,6 +472,7 @@ func main() {
 			cs := &caseT{}
 			cs.Cfg = cfgT{LitPlus: r.Intn(3) == 0, Rev2: r.Intn(3) == 0, UTF8: r.Intn(3) == 0}
 			cs.Cfg.LitMinus = cs.Cfg.LitPlus || cs.Cfg.Rev2 || r.Intn(2) == 0
+			cs.Cfg.UTF8Adv = cs.Cfg.UTF8 || r.Intn(2) == 0
 			cs.Case.Cmd = cmds[r.Intn(len(cmds))]
 			ln := r.Intn(24)
 			if r.Intn(4) == 0 {
